@@ -41,6 +41,7 @@ type Src struct {
 	Labels  []string // only kept when KeepLabels
 	KeepLab bool
 	MaxRec  int
+	NoRec   bool // sub-sources: do not record
 }
 
 func NewSrc(seed uint64) *Src { return &Src{state: seed, MaxRec: 1 << 22} }
@@ -68,6 +69,9 @@ func (s *Src) Draw(n int, label string) int {
 	}
 	if len(s.Rec) >= s.MaxRec {
 		panic(ErrTooManyChoices{})
+	}
+	if s.NoRec {
+		return int(v)
 	}
 	s.Rec = append(s.Rec, v)
 	if s.KeepLab {
